@@ -8,7 +8,7 @@ HEADER = "From Xdis Require Import Base.Prelude Base.OpTable Gen.Opcodes Gen.Ref
 
 def parse_failures(out):
     body = out.rsplit(":", 1)[0]
-    return re.findall(r'\("([^"]*)",\s*"([^"]*)",\s*\(?(-?\d+)\)?\)', " ".join(body.split()))
+    return re.findall(r'\("([^"]*)"(?:%string)?,\s*"([^"]*)"(?:%string)?,\s*\(?(-?\d+)\)?\)', " ".join(body.split()))
 
 
 def table_search(r):
